@@ -209,6 +209,10 @@ fn span_of(st: &MStack, l: usize, size: (i64, i64)) -> i64 {
         size.1 * st.prim.1
     }
 }
+thread_local! {
+    /// generator switch of the `compile-unrealisable-cuts` sub-check
+    static LOOSE_CUTS: std::cell::Cell<bool> = const { std::cell::Cell::new(false) };
+}
 fn gen_cell(src: &mut Src, st: &MStack, name: &str, lower: &[MCellT], max_size: i64, bad_size: bool) -> MCellT {
     // leaf cells are, one time in six, cells that use no metal layer at all (they block nothing)
     let metals = if lower.is_empty() && name != "top" && src.prob(1, 6) { 0 } else { src.usize_in(1, st.metals.len()) };
@@ -310,13 +314,16 @@ fn gen_cell(src: &mut Src, st: &MStack, name: &str, lower: &[MCellT], max_size: 
             cell.assigns.push((net, (l, t, cl, c)));
         } else {
             let (lo, hi) = (along_l - ml.cutsize / 2, along_l + ml.cutsize / 2);
-            if lo <= 0 || hi >= span_of(st, l, size) {
+            let loose = LOOSE_CUTS.with(|c| c.get());
+            if !loose && (lo <= 0 || hi >= span_of(st, l, size)) {
                 continue;
             }
             if under_block(l, lo, kl, reach) || under_block(l, hi, kl, reach) || under_block(l, along_l, kl, reach) {
                 continue;
             }
-            if used.iter().any(|u| u.0 == l && u.1 == t && lo <= u.3 + reach && hi >= u.2 - reach) {
+            // loose mode: cut requests may run over the outline edge and over other cuts (never over the
+            // crossing of an assignment): the compiler must refuse them or realise them, not ignore them
+            if used.iter().any(|u| u.0 == l && u.1 == t && lo <= u.3 + reach && hi >= u.2 - reach && !(loose && u.2 != u.3)) {
                 continue;
             }
             used.push((l, t, lo, hi));
@@ -666,6 +673,47 @@ fn main_case(src: &mut Src, ctx: &mut Ctx) -> Result<(), String> {
     let m = gen_tlib(src, false);
     oracle(&m, ctx)
 }
+fn gen_loose(src: &mut Src) -> MLibT {
+    LOOSE_CUTS.with(|c| c.set(true));
+    let m = gen_tlib(src, false);
+    LOOSE_CUTS.with(|c| c.set(false));
+    m
+}
+/// Cut requests that may be impossible (over the outline edge, over another cut): an error, or the
+/// tiling with every requested cut realised, are the only acceptable outcomes.
+fn loose_case(src: &mut Src, ctx: &mut Ctx) -> Result<(), String> {
+    let m = gen_loose(src);
+    let top = m.cells.last().unwrap();
+    if !top.cuts.is_empty() {
+        ctx.label("cell with cut requests that may overlap or leave the outline");
+    }
+    oracle(&m, ctx)
+}
+/// Regression inputs of repaired defects, written out as models (independent of the generators)
+fn literal_libs() -> Vec<(&'static str, MLibT)> {
+    use TT::*;
+    vec![(
+        "cut request starting before the track (fixed: 9d2332a)",
+        MLibT {
+            stack: MStack {
+                prim: (120, 120),
+                metals: vec![
+                    MMetal { horiz: true, entries: vec![(Gap, 4), (Sig, 4), (Gap, 4), (Sig, 4), (Gap, 96), (Sig, 4), (Gap, 4)], repeat: None, offset: 0, overlap: 0, flip: false, cutsize: 10, m: 1 },
+                    MMetal { horiz: false, entries: vec![(Gap, 4), (Sig, 4), (Gap, 224), (Sig, 4), (Gap, 4)], repeat: None, offset: -4, overlap: 0, flip: false, cutsize: 2, m: 2 },
+                ],
+                vias: vec![(2, 2)],
+            },
+            cells: vec![MCellT { name: "top".into(), size: (2, 1), metals: 1, cuts: vec![(0, 0, 1, 0)], assigns: vec![], insts: vec![] }],
+        },
+    )]
+}
+fn literal_case(src: &mut Src, ctx: &mut Ctx) -> Result<(), String> {
+    let libs = literal_libs();
+    let i = src.u64() as usize % libs.len();
+    ctx.label(&format!("literal: {}", libs[i].0));
+    ctx.nontrivial(hash_of(&libs[i].1));
+    oracle(&libs[i].1, ctx).map_err(|e| format!("[{}] {}", libs[i].0, e))
+}
 fn asym_case(src: &mut Src, ctx: &mut Ctx) -> Result<(), String> {
     let m = gen_tlib(src, true);
     if m.stack.metals.iter().any(|x| x.flip && !x.palindromic()) {
@@ -677,14 +725,20 @@ fn run(run: &mut Run) {
     run.rule("Stack family: 1-4 metal layers alternating direction (either first), entry patterns of optional ground/power rails, 1-4 signals and gaps with even widths, written flat or with Repeat groups, offset in {0, -rail/2, small}, overlap in {0, rail width}, with and without every-other-period flipping (palindromic and, in a second sub-check, asymmetric width patterns; tracks numbered in the order their period lists them), layer pitch 1-3 primitive pitches; vias between adjacent metals. Cells: rectangular outlines that are whole periods of every used layer (1 in 12 deliberately not: error required), cuts and assignments at in-range crossings kept clear of each other and of instances with one net per track, leaf-cell instances in all four reflections aligned to whole periods. Oracle (R-tracks): per layer and track, wire pieces + requested cuts + true instance extents tile [0, span]; one via per assignment centred on the crossing; nets on exactly the covering pieces; rails VDD/VSS. Non-trivial = a cut and an assignment and >= 2 metal layers; distinct by hash.");
     run.assume("non-rectangular outlines, odd widths/cut/via sizes, instances not aligned to whole periods, abstract ports are not generated");
     run.min_nontrivial = 100;
+    let n = literal_libs().len() as u32;
+    run.literals("literals", &(0..n).map(|i| vec![0, i]).collect::<Vec<_>>(), &literal_case);
     run.explore("compile", run.tier.pick(300_000, 4_000_000), 700, &main_case);
     // flipped layers with asymmetric patterns: tracks are numbered in the order their period lists them
     run.explore("compile-asymmetric-flip", run.tier.pick(120_000, 1_500_000), 700, &asym_case);
+    // cut requests over the outline edge or over each other: refused or realised, never ignored
+    run.explore("compile-unrealisable-cuts", run.tier.pick(120_000, 1_500_000), 700, &loose_case);
 }
 fn case(sub: &str) -> Option<Box<CaseFn<'static>>> {
     match sub {
         "compile" => Some(Box::new(main_case)),
         "compile-asymmetric-flip" => Some(Box::new(asym_case)),
+        "compile-unrealisable-cuts" => Some(Box::new(loose_case)),
+        "literals" => Some(Box::new(literal_case)),
         _ => None,
     }
 }
@@ -693,6 +747,7 @@ fn render(sub: &str, choices: &[u32]) -> Option<String> {
     match sub {
         "compile" => Some(format!("{:?}", gen_tlib(&mut src, false))),
         "compile-asymmetric-flip" => Some(format!("{:?}", gen_tlib(&mut src, true))),
+        "compile-unrealisable-cuts" => Some(format!("{:?}", gen_loose(&mut src))),
         _ => None,
     }
 }
